@@ -647,6 +647,11 @@ namespace bloch::update {
                       << std::endl;
             return false;
         }
+        if (!parseSemVer(*latest).valid) {
+            std::cerr << "Unable to interpret the latest Bloch release tag '" << *latest << "'."
+                      << std::endl;
+            return false;
+        }
         if (hasLatest(currentVersion, *latest)) {
             std::cout << "You already have the latest Bloch release (" << *latest << ")."
                       << std::endl;
